@@ -663,6 +663,10 @@ where
         self.last_purged_term.store(cutoff_index.term, Ordering::Release);
         self.last_purged_index.store(cutoff_index.index, Ordering::Release);
 
+        // A purge beyond the local tail (snapshot installed on a lagging follower) moves the log's
+        // end to the boundary: the next allocated index must lie above it.
+        self.next_id.fetch_max(cutoff_index.index + 1, Ordering::SeqCst);
+
         // Route purge through the IO thread so it never blocks the inbound event loop.
         // Also writes the purge boundary to META_CF in the RocksDB implementation.
         let (done_tx, done_rx) = oneshot::channel();
@@ -827,7 +831,7 @@ where
                 last_purged_index: AtomicU64::new(last_purged_index_val),
                 last_purged_term: AtomicU64::new(last_purged_term_val),
                 durable_index: AtomicU64::new(disk_len),
-                next_id: AtomicU64::new(disk_len + 1),
+                next_id: AtomicU64::new(disk_len.max(last_purged_index_val) + 1),
                 write_notify: Arc::new(Notify::new()),
                 command_sender: command_sender.clone(),
                 term_first_index,
